@@ -251,8 +251,187 @@ func c13integrationAll(t *testing.T) (cases int, fails []string) {
 			mu.Unlock()
 		}
 	}()
+	cases++
+	wg.Add(1)
+	go func() {
+		defer wg.Done()
+		if m := c13streamError(t); m != "" {
+			mu.Lock()
+			fails = append(fails, m)
+			mu.Unlock()
+		}
+	}()
+	cases++
+	wg.Add(1)
+	go func() {
+		defer wg.Done()
+		if m := c13oldKeepalive(t); m != "" {
+			mu.Lock()
+			fails = append(fails, m)
+			mu.Unlock()
+		}
+	}()
 	wg.Wait()
 	return
+}
+
+// c13oldKeepalive: keepalive interval 50 ms; the server goes down for 500 ms (connection lost, port refusing) and
+// comes back. While the StreamManager's handler is reconnecting, nothing of the old connection may touch the
+// transport: no panic (Ping on a transport whose dial has just failed), and the new connection stays up - only
+// keepalive newlines arrive on it, it is not closed, there is no third session.
+func c13oldKeepalive(t *testing.T) string {
+	sessions := make(chan *ServerConn, 16)
+	h := func(t *testing.T, sc *ServerConn) {
+		checkClientOpenStream(t, sc)
+		sendStreamFeatures(t, sc)
+		readAuth(t, sc.decoder)
+		sc.connection.Write([]byte("<success xmlns=\"urn:ietf:params:xml:ns:xmpp-sasl\"/>"))
+		checkClientOpenStream(t, sc)
+		sendBindFeature(t, sc)
+		bind(t, sc)
+		sessions <- sc
+	}
+	mock := ServerMock{}
+	mock.Start(t, "127.0.0.1:0", h)
+	if mock.listener == nil {
+		return "scripted server cannot listen"
+	}
+	addr := mock.listener.Addr().String()
+	config := Config{
+		TransportConfiguration: TransportConfiguration{Address: addr},
+		Jid:                    "test@localhost",
+		Credential:             Password("test"),
+		Insecure:               true,
+		ConnectTimeout:         2,
+		KeepaliveInterval:      50 * time.Millisecond,
+	}
+	client, err := NewClient(&config, NewRouter(), func(error) {})
+	if err != nil {
+		mock.Stop()
+		return "cannot create client: " + err.Error()
+	}
+	var postConnect int32
+	sman := NewStreamManager(client, func(Sender) { atomic.AddInt32(&postConnect, 1) })
+	go sman.Run()
+	select {
+	case <-sessions:
+	case <-time.After(10 * time.Second):
+		mock.Stop()
+		return "first session never established"
+	}
+	time.Sleep(120 * time.Millisecond)
+	mock.Stop()
+	time.Sleep(500 * time.Millisecond)
+	l2, err := net.Listen("tcp", addr)
+	if err != nil {
+		return ""
+	}
+	mock2 := ServerMock{t: t, handler: h, listener: l2, done: make(chan struct{})}
+	go mock2.loop()
+	defer mock2.Stop()
+	var sc2 *ServerConn
+	select {
+	case sc2 = <-sessions:
+	case <-time.After(15 * time.Second):
+		return "keepalive 50 ms, server down 500 ms: no session re-established"
+	}
+	deadline := time.Now().Add(3 * time.Second)
+	buf := make([]byte, 256)
+	for time.Now().Before(deadline) {
+		sc2.connection.SetReadDeadline(deadline)
+		n, rerr := sc2.connection.Read(buf)
+		for _, b := range buf[:n] {
+			if b != '\n' {
+				return fmt.Sprintf("keepalive 50 ms, server down 500 ms: the client wrote %q on the new connection", buf[:n])
+			}
+		}
+		if rerr != nil {
+			if ne, ok := rerr.(interface{ Timeout() bool }); ok && ne.Timeout() {
+				break
+			}
+			return fmt.Sprintf("keepalive 50 ms, server down 500 ms: the new connection was closed by the client %v after it was established (%v)", 3*time.Second-time.Until(deadline), rerr)
+		}
+	}
+	select {
+	case <-sessions:
+		return fmt.Sprintf("keepalive 50 ms, server down 500 ms: a third session for one loss (PostConnect ran %d times)", atomic.LoadInt32(&postConnect))
+	default:
+	}
+	return ""
+}
+
+// c13streamError: the server ends the session with <stream:error><system-shutdown/></stream:error></stream:stream>.
+// Exactly one new session must follow, and nothing may be done to it by what is left of the old one: the server
+// reads nothing on the new connection, it stays open, there is no third session.
+func c13streamError(t *testing.T) string {
+	sessions := make(chan *ServerConn, 16)
+	var nconn int32
+	mock := ServerMock{}
+	mock.Start(t, "127.0.0.1:0", func(t *testing.T, sc *ServerConn) {
+		atomic.AddInt32(&nconn, 1)
+		checkClientOpenStream(t, sc)
+		sendStreamFeatures(t, sc)
+		readAuth(t, sc.decoder)
+		sc.connection.Write([]byte("<success xmlns=\"urn:ietf:params:xml:ns:xmpp-sasl\"/>"))
+		checkClientOpenStream(t, sc)
+		sendBindFeature(t, sc)
+		bind(t, sc)
+		sessions <- sc
+	})
+	if mock.listener == nil {
+		return "scripted server cannot listen"
+	}
+	defer mock.Stop()
+	config := Config{
+		TransportConfiguration: TransportConfiguration{Address: mock.listener.Addr().String()},
+		Jid:                    "test@localhost",
+		Credential:             Password("test"),
+		Insecure:               true,
+		ConnectTimeout:         1,
+	}
+	client, err := NewClient(&config, NewRouter(), func(error) {})
+	if err != nil {
+		return "cannot create client: " + err.Error()
+	}
+	var postConnect int32
+	sman := NewStreamManager(client, func(Sender) { atomic.AddInt32(&postConnect, 1) })
+	go sman.Run()
+	var sc1 *ServerConn
+	select {
+	case sc1 = <-sessions:
+	case <-time.After(10 * time.Second):
+		return "first session never established"
+	}
+	for i := 0; i < 2000 && atomic.LoadInt32(&postConnect) < 1; i++ {
+		sleepC13()
+	}
+	sc1.connection.Write([]byte("<stream:error><system-shutdown xmlns='urn:ietf:params:xml:ns:xmpp-streams'/></stream:error></stream:stream>"))
+	time.Sleep(20 * time.Millisecond)
+	sc1.connection.Close()
+	var sc2 *ServerConn
+	select {
+	case sc2 = <-sessions:
+	case <-time.After(15 * time.Second):
+		return "stream error (system-shutdown): no session re-established"
+	}
+	buf := make([]byte, 256)
+	sc2.connection.SetReadDeadline(time.Now().Add(2500 * time.Millisecond))
+	n, rerr := sc2.connection.Read(buf)
+	if n > 0 {
+		return fmt.Sprintf("stream error (system-shutdown): after the reconnect the client wrote %q on the new connection", buf[:n])
+	}
+	if ne, ok := rerr.(interface{ Timeout() bool }); !ok || !ne.Timeout() {
+		return fmt.Sprintf("stream error (system-shutdown): the new connection was closed by the client (%v)", rerr)
+	}
+	select {
+	case <-sessions:
+		return fmt.Sprintf("stream error (system-shutdown): a third session for one termination (server saw %d connections, PostConnect ran %d times)", atomic.LoadInt32(&nconn), atomic.LoadInt32(&postConnect))
+	default:
+	}
+	if atomic.LoadInt32(&postConnect) != 2 {
+		return fmt.Sprintf("stream error (system-shutdown): PostConnect ran %d times for 2 sessions", atomic.LoadInt32(&postConnect))
+	}
+	return ""
 }
 
 // c13refused: the server goes down (the established connection is lost and its port refuses connections for a while),
